@@ -16,18 +16,30 @@ pub enum ProgSrc {
     Source(String, String),
     /// reference-compiled corpus story: (name, json path, source path)
     CorpusJson(String, String, String),
+    /// compiled from source, then marked as built by ink version 20: `Story::new` raises the
+    /// version-mismatch warning
+    SourceV20(String, String),
 }
 
 impl ProgSrc {
     pub fn name(&self) -> &str {
         match self {
-            ProgSrc::Source(n, _) | ProgSrc::CorpusJson(n, _, _) => n,
+            ProgSrc::Source(n, _) | ProgSrc::CorpusJson(n, _, _) | ProgSrc::SourceV20(n, _) => n,
         }
     }
     pub fn load(&self) -> Option<Rc<Prog>> {
         match self {
             ProgSrc::Source(n, s) => match Prog::from_source(n, s) {
                 CompileOutcome::Ok(p) => Some(p),
+                _ => None,
+            },
+            ProgSrc::SourceV20(n, s) => match Prog::from_source(n, s) {
+                CompileOutcome::Ok(p) => {
+                    let mut q = Prog::from_json(n, &p.json.replace("\"inkVersion\":21", "\"inkVersion\":20"));
+                    q.functions = p.functions.clone();
+                    q.plain_knots = p.plain_knots.clone();
+                    Some(Rc::new(q))
+                }
                 _ => None,
             },
             ProgSrc::CorpusJson(n, j, s) => {
